@@ -47,7 +47,7 @@ ASSUMPTIONS = [
 ]
 BUDGET = {"quick": 50, "thorough": 450}
 NCASES = {"quick": 3000, "thorough": 60000}
-FLOORS = {"quick": {"case_held": 400, "nontrivial": 150}, "thorough": {"case_held": 9000, "nontrivial": 3000}}
+FLOORS = {'quick': {'case_held': 400, 'nontrivial': 150}, 'thorough': {'case_held': 9000, 'nontrivial': 3000, 'suite:cancel_jacobian_products:held': 1}}
 COVER_FLOORS = {"quick": {"templates_held": ["realistic", "JK", "KJ", "identity", "nested", "powers", "recip"]}, "thorough": {"templates_held": ["realistic", "JK", "KJ", "identity", "nested", "powers", "recip", "reuse"]}}
 CELLS = [("interval", 1), ("interval", 2), ("triangle", 2), ("triangle", 2), ("triangle", 3), ("tetrahedron", 3)]
 TEMPLATES = ["realistic", "realistic", "JK", "KJ", "identity", "nested", "powers", "recip", "reuse"]
@@ -154,3 +154,15 @@ def case(ctx, i, rng):
             ctx.count("nontrivial")
             ctx.add_distinct((trav, template, skeleton(pre, 3), cell, gdim))
         ctx.sample({"template": template, "traversal": trav, "cell": [cell, gdim], "input": str(pre)[:260], "output": str(out)[:200]})
+
+
+# ---- additional workload (thorough tier): the repository's own test-suite with this property's passes monitored
+EXTRA_JOBS = {"thorough": ["suite"]}
+SUITE_TARGETS = ['cancel_jacobian_products']
+
+
+def extra_suite(ctx):
+    """Every call the repository's tests make to the monitored passes is judged by the same value oracle (vf/suitemon.py)."""
+    from ..suite_driver import run_suite
+
+    run_suite(ctx, SUITE_TARGETS, "C09")
